@@ -68,6 +68,7 @@ Inductive mop :=
 | MPrune                         (* emptyDirectory *)
 | MReset (d : D)                 (* resetWorkspaceState(path, d) *)
 | MResetNone                     (* resetWorkspaceState(path, None): invalidate before pruning *)
+| MResetEmpty                    (* resetWorkspaceState(path, {}): a source workspace that was just created *)
 | MDelInputs
 | MSetTime                       (* setResultHash(now) *)
 | MRun (d : D) (i : list Hsh) (clean : bool)   (* _runShell; clean = workspace emptied first *)
@@ -86,7 +87,7 @@ Section Hash.
     | MMkdir => {| exists_ := true; cont := cont s; dirst := dirst s; inputs := inputs s; result := result s; vidst := vidst s |}
     | MPrune => {| exists_ := exists_ s; cont := Empty; dirst := dirst s; inputs := inputs s; result := result s; vidst := vidst s |}
     | MReset d => {| exists_ := exists_ s; cont := cont s; dirst := Some d; inputs := None; result := None; vidst := None |}
-    | MResetNone => {| exists_ := exists_ s; cont := cont s; dirst := None; inputs := None; result := None; vidst := None |}
+    | MResetNone | MResetEmpty => {| exists_ := exists_ s; cont := cont s; dirst := None; inputs := None; result := None; vidst := None |}
     | MDelInputs => {| exists_ := exists_ s; cont := cont s; dirst := dirst s; inputs := None; result := result s; vidst := vidst s |}
     | MSetTime => {| exists_ := exists_ s; cont := cont s; dirst := dirst s; inputs := inputs s; result := Some RTime; vidst := vidst s |}
     | MRun d i clean =>
@@ -150,10 +151,10 @@ Section Hash.
        || negb (opt_eqb list_eqb (inputs s) (Some ins)) || stale_result
     then [MClrDir] ++ (match result s with Some _ => [MSetTime] | None => [] end)
          ++ [MRun d ins true; MSetDir d; MSetInputs ins; MSetVid d; MSetResult]
-    else [MSetResult].
+    else [].     (* skipped; the directory is re-hashed but the stored result is only rewritten when it differs *)
 
   Definition cook_checkout (c : cfg) (det : bool) (d : D) (ins : list Hsh) (s : slot) : list mop :=
-    let p := if exists_ s then [] else [MMkdir; MReset 0%N; MClrDir] in
+    let p := if exists_ s then [] else [MMkdir; MResetEmpty] in
     p ++ checkout_body c det d ins s (exec p s).
 
   (* does a trace execute the script? *)
@@ -218,6 +219,25 @@ Section Hash.
                    end) P w :: history_runs c r (build c P w)
     end.
 
+  (* the micro-op sequence of every step of every build of a history, as observable kinds
+     (compared with the traced persistent-state operations, prunes and script runs of the real builder) *)
+  Definition mop_code (o : mop) : N :=
+    match o with
+    | MMkdir => 1 | MPrune => 2 | MReset _ => 3 | MResetEmpty => 3 | MResetNone => 4 | MDelInputs => 5 | MSetTime => 6
+    | MRun _ _ _ => 7 | MRunCrash _ _ => 7 | MSetResult => 8 | MSetVid _ => 9 | MSetInputs _ => 10
+    | MSetDir _ => 11 | MClrDir => 12
+    end%N.
+
+  Fixpoint history_traces (c : cfg) (Ps : list project) (w : wstate) : list (list (N * list N)) :=
+    match Ps with
+    | [] => []
+    | P :: r => (fix br (Q : project) (st : wstate) : list (N * list N) :=
+                   match Q with
+                   | [] => []
+                   | sd :: q => (sd_path sd, map mop_code (cook_step c st sd)) :: br q (build_step c st sd)
+                   end) P w :: history_traces c r (build c P w)
+    end.
+
   Fixpoint build_runs (c : cfg) (P : project) (w : wstate) : list (N * bool) :=
     match P with
     | [] => []
@@ -249,5 +269,19 @@ Fixpoint history_agree (model expected : list (list (N * bool))) : bool :=
   match model, expected with
   | [], [] => true
   | m :: mr, e :: er => runs_agree m e && history_agree mr er
+  | _, _ => false
+  end.
+
+(* trace agreement: every workspace has the same micro-op kinds in the model and in the observation
+   (a workspace missing on one side counts as the empty sequence) *)
+Fixpoint lookup_trace (p : N) (l : list (N * list N)) : list N :=
+  match l with [] => [] | (q, t) :: r => if N.eqb p q then t else lookup_trace p r end.
+Definition trace_agree (model observed : list (N * list N)) : bool :=
+  forallb (fun pt => list_eqb (snd pt) (lookup_trace (fst pt) observed)) model &&
+  forallb (fun pt => list_eqb (snd pt) (lookup_trace (fst pt) model)) observed.
+Fixpoint traces_agree (model observed : list (list (N * list N))) : bool :=
+  match model, observed with
+  | [], [] => true
+  | m :: mr, e :: er => trace_agree m e && traces_agree mr er
   | _, _ => false
   end.
